@@ -74,9 +74,38 @@ func c10ValidText(t *rapid.T, c *C10Case) string {
 				sb.WriteString("  " + ln + "\n")
 			}
 		}
+		if pct(t, fmt.Sprintf("nested%d", i), 30) {
+			sb.WriteString("  zn = " + c10Nested(t, fmt.Sprintf("nest%d_", i), uni(t, fmt.Sprintf("nestd%d", i), 1, 5)) + "\n")
+		}
 		fmt.Fprintf(&sb, "  return %d\nend\n", tag)
 	}
 	return sb.String()
+}
+
+// c10Nested renders a well-typed integer expression with bracket groups nested up to depth
+// d inside operator chains (the shape the parser's prediction is sensitive to); texts
+// whose estimated compile cost exceeds the limit are excluded by the check.
+func c10Nested(t *rapid.T, label string, d int) string {
+	atom := func(l string) string { return []string{"1", "a", "W.N", "2", "sl [ 0 ]", "@sal"}[uni(t, l, 0, 5)] }
+	op := func(l string) string { return []string{"+", "-", "*"}[uni(t, l, 0, 2)] }
+	if d <= 0 {
+		return atom(label + "a")
+	}
+	in := "( " + c10Nested(t, label+"i", d-1) + " )"
+	switch uni(t, label+"k", 0, 5) {
+	case 0:
+		return atom(label+"x") + " " + op(label+"o") + " " + atom(label+"y") + " " + op(label+"p") + " " + in
+	case 1:
+		return in + " " + op(label+"o") + " " + atom(label+"x")
+	case 2:
+		return in + " " + op(label+"o") + " ( " + c10Nested(t, label+"j", d-1) + " )"
+	case 3:
+		return atom(label+"x") + " " + op(label+"o") + " ok ( " + c10Nested(t, label+"j", d-1) + " )"
+	case 4:
+		return "( " + in + " )"
+	default:
+		return atom(label+"x") + " " + op(label+"o") + " " + in + " " + op(label+"p") + " " + atom(label+"y")
+	}
 }
 
 var c10Vocab = []string{"rule", "begin", "end", "if", "else", "for", "forRange", "break", "continue", "return", "conc", "true", "false", "nil", "salience",
@@ -224,7 +253,7 @@ func guard(f func() error) (err error, pan string) {
 func init() {
 	register(&Prop{
 		ID:   "C10",
-		Rule: "texts: valid rule texts generated by construction (1-4 rules over a 6-name universe overlapping the installed set, bodies drawn from all statement kinds), the same texts after 1-4 token-level mutations (delete, duplicate, swap, replace/insert a vocabulary token, truncate), texts with a duplicated rule (same name), token soups from the language vocabulary, arbitrary strings / bytes; each text is submitted to all five compile entry points (full build, incremental build, pool construction, pool full update, pool incremental update) from a known installed state S0 of tagged observer rules (builders also from the empty state); oracle: every call returns, the five verdicts agree, a rejected text leaves S0 (names, results, execution order) untouched, an accepted text installs exactly the rules it defines (full) or S0 overridden by them (incremental) - by construction for generated texts, differentially across entry points otherwise - and a repeated rule name is rejected by all. Non-trivial: mutated / duplicated-name / soup text, or a text accepted by at least one entry point; distinct by text hash",
+		Rule: "texts: valid rule texts generated by construction (1-4 rules over a 6-name universe overlapping the installed set, bodies drawn from all statement kinds, optionally an assignment of a generated arithmetic expression with bracket groups and call arguments nested up to depth 5 inside operator chains), the same texts after 1-4 token-level mutations (delete, duplicate, swap, replace/insert a vocabulary token, truncate), texts with a duplicated rule (same name), token soups from the language vocabulary, arbitrary strings / bytes; each text is submitted to all five compile entry points (full build, incremental build, pool construction, pool full update, pool incremental update) from a known installed state S0 of tagged observer rules (builders also from the empty state); oracle: every call returns, the five verdicts agree, a rejected text leaves S0 (names, results, execution order) untouched, an accepted text installs exactly the rules it defines (full) or S0 overridden by them (incremental) - by construction for generated texts, differentially across entry points otherwise - and a repeated rule name is rejected by all. Texts whose estimated compile cost (dsl.ParseCost, bracket groups nested inside operator chains) exceeds 400 are not submitted but counted: known finding compile-cost-blowup. Non-trivial: mutated / duplicated-name / soup text, or a text accepted by at least one entry point; distinct by text hash",
 		New:  func() interface{} { return &C10Case{} },
 		Gen: func(t *rapid.T) interface{} {
 			c := &C10Case{State: "s0"}
@@ -278,6 +307,12 @@ func init() {
 			text := string(c.Text)
 			x.Class("kind:" + c.Kind)
 			x.Class("state:" + c.State)
+			if tooCostly(x, text) {
+				return
+			}
+			if strings.Contains(text, "zn = ") {
+				x.Class("valid-text-with-nested-bracket-expression")
+			}
 			if c.Kind != "valid" && c.Kind != "arbitrary" {
 				x.NonTrivial()
 			}
